@@ -70,6 +70,7 @@ type Interp struct {
 	viols   []Violation
 	orderMode string // "", "fwdrev", "all"
 	orderDev  bool   // a non-default iteration order was taken on this path
+	rangeCount int
 
 	initMark     int
 	sharedMark   int
@@ -204,7 +205,8 @@ func (in *Interp) noteAlloc(n int) {
 		in.allocBytes += n
 		if in.allocBudget > 0 && in.allocBytes > in.allocBudget {
 			w, _ := in.libWhere()
-			panic(pathEnd{"budget", "alloc@" + shortFn(w) + "|" + fmt.Sprintf("allocation budget %d bytes exceeded", in.allocBudget)})
+			_ = w
+			panic(pathEnd{"budget", "alloc@" + in.entryWhere() + "|" + fmt.Sprintf("allocation budget %d bytes exceeded", in.allocBudget)})
 		}
 	}
 }
@@ -358,7 +360,8 @@ func (in *Interp) callFunction(fn *ssa.Function, args []Val, env []Val) Val {
 	}
 	if len(in.stack) > 400 {
 		w, _ := in.libWhere()
-		panic(pathEnd{"budget", "stack@" + shortFn(w) + "|call depth exceeded"})
+		_ = w
+		panic(pathEnd{"budget", "stack@" + in.entryWhere() + "|call depth exceeded"})
 	}
 	in.stack = append(in.stack, fr)
 	defer func() { in.stack = in.stack[:len(in.stack)-1] }()
@@ -397,7 +400,8 @@ func (in *Interp) runBlock(fr *Frame) (Val, bool) {
 			in.steps++
 			if in.steps > in.stepBudget {
 				w, _ := in.libWhere()
-				panic(pathEnd{"budget", "steps@" + shortFn(w) + "|" + fmt.Sprintf("step budget %d exceeded", in.stepBudget)})
+				_ = w
+				panic(pathEnd{"budget", "steps@" + in.entryWhere() + "|" + fmt.Sprintf("step budget %d exceeded", in.stepBudget)})
 			}
 		}
 		if traceOn {
@@ -671,15 +675,35 @@ func (in *Interp) mapOrder(n int) []int {
 	if n <= 1 {
 		return order
 	}
-	switch in.orderMode {
-	case "fwdrev":
+	rev := func() {
+		for i, j := 0, n-1; i < j; i, j = i+1, j-1 {
+			order[i], order[j] = order[j], order[i]
+		}
+	}
+	in.rangeCount++
+	switch {
+	case in.orderMode == "rev":
+		in.orderDev = true
+		rev()
+	case in.orderMode == "alt":
+		// every other Range execution is reversed: consecutive passes over
+		// the same map (length pass, write pass) see different orders
+		if in.rangeCount%2 == 0 {
+			in.orderDev = true
+			rev()
+		}
+	case strings.HasPrefix(in.orderMode, "rot"):
+		k := int(in.orderMode[3]-'0') % n
+		if k != 0 {
+			in.orderDev = true
+			order = append(append([]int{}, order[k:]...), order[:k]...)
+		}
+	case in.orderMode == "fwdrev":
 		if in.ex.ChooseFree("order", 2) == 1 {
 			in.orderDev = true
-			for i, j := 0, n-1; i < j; i, j = i+1, j-1 {
-				order[i], order[j] = order[j], order[i]
-			}
+			rev()
 		}
-	case "all":
+	case in.orderMode == "all":
 		rest := order
 		var out []int
 		for len(rest) > 1 {
